@@ -6,6 +6,13 @@ from pyvc.proxies import SInt, SReal, SBool, sym_int, sym_bool
 from pyvc import arrays as A
 from pyvc import spec as S
 
+EXPLANATION = ("smooth (every length, every width, both edge modes: each output element equals the centred boxcar mean / the untouched or "
+               "edge-replicated value), uniq (both forms: exactly the last subscript of every run, ascending; all-equal input), median (no width: "
+               "numpy median; width: edges untouched, interior = filtered) and rebin's argument validation and result shape are proved for all "
+               "sizes from the real AST with loop invariants; rebin's values (nearest-sample / interpolated expansion, block-mean compression) "
+               "are a bounded stand-in.")
+UNDECIDED = ["scipy.signal.medfilt kernel (trusted)", "rebin values for all shapes: bounded (1-D and 2-D shapes up to the stated sizes)",
+             "floating-point rounding of the boxcar sums (A1: floats as reals)"]
 
 def _smooth_elem(signal, n, w, h, trunc, out, j):
     """what element j of smooth(signal, owidth) must be (from the property statement):
